@@ -128,3 +128,143 @@ Proof.
   exists (mid_to_index d mid). split; [|exact Hr].
   apply gen_midToIndex_refines; try assumption. lia.
 Qed.
+
+(* ------------------------------------------------------------------ util.Bitmask.HasBitsIn (loop Fixpoint)
+   The middle loop `for i := leftIndex + 1; i < rightIndex; i++ { if b.bin[i] > 0 { return true } }` is the
+   lifted Fixpoint go_util_Bitmask_HasBitsIn_loop1; its continuation in the generated function maps a normal
+   exit to false and an early return to its value. Induction over the number of remaining bytes; the fuel is
+   adequate as soon as it exceeds that number. *)
+Definition hb_cont (lr : Z + bool) : outcome bool :=
+  match lr with inl _ => Val false | inr r => Val r end.
+
+Lemma skipn_cons_idx : forall (bin : list Z) i, 0 <= i < len bin ->
+  skipn (Z.to_nat i) bin = idx bin i :: skipn (Z.to_nat (i + 1)) bin.
+Proof.
+  intros bin i Hi. unfold len, idx in *.
+  replace (Z.to_nat (i + 1)) with (S (Z.to_nat i)) by lia.
+  assert (Hl : (Z.to_nat i < length bin)%nat) by lia.
+  revert Hl. generalize (Z.to_nat i) as n. clear Hi i.
+  induction bin as [|x r IH]; intros n Hl; simpl in Hl; [lia|].
+  destruct n as [|n]; [reflexivity|]. simpl. apply IH. lia.
+Qed.
+
+Lemma gen_HasBitsIn_loop : forall (n : nat) fuel b l r li ri lbi rbi lm rm i,
+  0 <= i -> ri <= len (go_Bitmask_bin b) -> ri < 9223372036854775807 ->
+  (Z.to_nat (ri - i) <= n)%nat -> (n < fuel)%nat ->
+  bind (go_util_Bitmask_HasBitsIn_loop1 fuel b l r li ri lbi rbi lm rm i) hb_cont =
+  Val (existsb (fun x => 0 <? x) (firstn (Z.to_nat (ri - i)) (skipn (Z.to_nat i) (go_Bitmask_bin b)))).
+Proof.
+  induction n as [|n IH]; intros fuel b l r li ri lbi rbi lm rm i Hi Hr Hr63 Hn Hf;
+    (destruct fuel as [|fuel]; [lia|]); cbn [go_util_Bitmask_HasBitsIn_loop1].
+  - destruct (Z.ltb_spec i ri) as [Hlt|Hge]; [lia|].
+    replace (Z.to_nat (ri - i)) with O by lia. reflexivity.
+  - destruct (Z.ltb_spec i ri) as [Hlt|Hge].
+    + replace ((i <? 0) || (len (go_Bitmask_bin b) <=? i)) with false by lia.
+      rewrite (skipn_cons_idx (go_Bitmask_bin b) i) by lia.
+      replace (Z.to_nat (ri - i)) with (S (Z.to_nat (ri - (i + 1)))) by lia.
+      cbn [firstn existsb].
+      destruct (0 <? idx (go_Bitmask_bin b) i) eqn:E; [reflexivity|].
+      cbv zeta. rewrite i64_small by lia. cbn [orb].
+      apply IH; lia.
+    + replace (Z.to_nat (ri - i)) with O by lia. reflexivity.
+Qed.
+
+(* HasBitsIn as generated = bm_has_bits_in (the function C14_hasbits_spec is about) for every 0 <= l <= r whose
+   last byte lies inside the array; no index / shift panic there, and every fuel above the number of bytes
+   between the two ends is adequate *)
+Lemma gen_HasBitsIn_refines : forall b l r fuel, 0 <= l -> l <= r -> r < 9223372036854775807 ->
+  r / 8 < Z.of_nat (length (bm_bin b)) -> (Z.to_nat (r / 8 - l / 8) < fuel)%nat ->
+  go_util_Bitmask_HasBitsIn fuel (zbm b) l r = Val (bm_has_bits_in b l r).
+Proof.
+  intros b l r fuel Hl Hlr Hr Hlen Hf.
+  unfold go_util_Bitmask_HasBitsIn, bm_has_bits_in. cbv zeta.
+  rewrite !Z.quot_div_nonneg, !Z.rem_mod_nonneg by lia.
+  pose proof (Z.mod_pos_bound l 8 ltac:(lia)) as Hlm. pose proof (Z.mod_pos_bound r 8 ltac:(lia)) as Hrm.
+  assert (Hdl : 0 <= l / 8) by (apply Z.div_pos; lia).
+  assert (Hdlr : l / 8 <= r / 8) by (apply Z.div_le_mono; lia).
+  assert (Hrr : r / 8 <= r) by (apply Z.div_le_upper_bound; lia).
+  rewrite (i64_small (l / 8)), (i64_small (r / 8)), (i64_small (r mod 8 + 1)) by lia.
+  rewrite (i64_small (8 - (r mod 8 + 1))) by lia.
+  replace (l mod 8 <? 0) with false by lia.
+  replace (8 - (r mod 8 + 1) <? 0) with false by lia.
+  assert (Hlmask : u8 (shl 255 (l mod 8)) = left_mask (l mod 8)).
+  { unfold u8, shl, left_mask. replace (64 <=? l mod 8) with false by lia. reflexivity. }
+  assert (Hrmask : shr 255 (8 - (r mod 8 + 1)) = right_mask (r mod 8 + 1)).
+  { unfold shr, right_mask. replace (64 <=? 8 - (r mod 8 + 1)) with false by lia. reflexivity. }
+  rewrite Hlmask, Hrmask. unfold zbm at 1 2 3 4 5 6. cbn [go_Bitmask_bin].
+  change (idx (bm_bin b)) with (byte_at (bm_bin b)).
+  assert (Hg : forall k, 0 <= k <= r / 8 -> (k <? 0) || (len (bm_bin b) <=? k) = false) by (intros; unfold len; lia).
+  destruct (Z.eqb_spec (l / 8) (r / 8)) as [E|E].
+  - rewrite Hg by lia. reflexivity.
+  - rewrite Hg by lia.
+    destruct (0 <? Z.land (byte_at (bm_bin b) (l / 8)) (left_mask (l mod 8))); [reflexivity|].
+    rewrite Hg by lia.
+    destruct (0 <? Z.land (byte_at (bm_bin b) (r / 8)) (right_mask (r mod 8 + 1))); [reflexivity|].
+    rewrite (i64_small (l / 8 + 1)) by lia.
+    change (fun lr : Z + bool => match lr with inl _ => Val false | inr r0 => Val r0 end) with hb_cont.
+    rewrite (gen_HasBitsIn_loop (Z.to_nat (r / 8 - (l / 8 + 1)))); cbn [zbm go_Bitmask_bin]; unfold len; try lia.
+    do 3 f_equal; lia.
+Qed.
+
+(* thm:C14_hasbits_spec restated over the GENERATED HasBitsIn and Get *)
+Lemma hasbits_spec_gen : forall b l r fuel,
+  bytes_ok (bm_bin b) -> 0 <= l -> l <= r -> r < 9223372036854775807 ->
+  r / 8 < Z.of_nat (length (bm_bin b)) -> (Z.to_nat (r / 8 - l / 8) < fuel)%nat ->
+  (go_util_Bitmask_HasBitsIn fuel (zbm b) l r = Val true <->
+   exists i, l <= i <= r /\ go_util_Bitmask_Get (zbm b) i = Val true).
+Proof.
+  intros b l r fuel Hb Hl Hlr Hr Hlen Hf.
+  rewrite gen_HasBitsIn_refines by assumption.
+  pose proof (has_bits_in_spec b l r Hb Hl Hlr) as S.
+  assert (Hget : forall i, l <= i <= r -> go_util_Bitmask_Get (zbm b) i = Val (bm_get b i)).
+  { intros i Hi. apply gen_Get_refines; [lia|].
+    apply Z.le_lt_trans with (r / 8); [apply Z.div_le_mono; lia|exact Hlen]. }
+  split.
+  - intros H. injection H as H. apply S in H. destruct H as [i [Hi Hg]]. exists i. split; [exact Hi|].
+    rewrite Hget by exact Hi. rewrite Hg. reflexivity.
+  - intros [i [Hi Hg]]. rewrite Hget in Hg by exact Hi. injection Hg as Hg. f_equal. apply S. exists i. split; assumption.
+Qed.
+
+(* ------------------------------------------------------------------ seq.MIDsDistribution.IsIntersecting *)
+Lemma wf_size_bound : forall d, dist_wf d -> 1 < d_bucket d ->
+  - 9223372036854775808 < bm_size (d_mask d) <= 4611686018427387904 + 3.
+Proof.
+  intros d [Ho Hb Hs _ _] H1. rewrite Hs. unfold dist_size.
+  pose proof (quot_half (sub_ns (d_to d) (d_from d)) (d_bucket d) (sub_ns_range _ _) H1). lia.
+Qed.
+
+(* IsIntersecting as generated = dist_is_intersecting (C14_occupancy_sound / C14_intersect_sound are about it)
+   on every well-formed distribution with a bucket above 1 ns, every query 0 <= from <= to over all uint64 *)
+Lemma gen_IsIntersecting_refines : forall d from to fuel, dist_wf d -> 1 < d_bucket d ->
+  0 <= from -> from <= to -> to < two64 -> (length (bm_bin (d_mask d)) < fuel)%nat ->
+  go_seq_MIDsDistribution_IsIntersecting fuel (zdist d) from to = Val (dist_is_intersecting d from to).
+Proof.
+  intros d from to fuel Hwf Hb Hf Hft Ht Hfuel.
+  unfold go_seq_MIDsDistribution_IsIntersecting, dist_is_intersecting.
+  rewrite gen_isUndefined_refines.
+  destruct (Z.eqb_spec (d_bucket d) 0) as [E|E]; [lia|].
+  pose proof (wf_size_bound d Hwf Hb) as Hs.
+  rewrite !gen_midToIndex_refines by lia. cbn [bind].
+  pose proof (index_in_range d from Hwf) as R1. pose proof (index_in_range d to Hwf) as R2.
+  pose proof (index_monotone d from to Hwf Hf Hft) as Hm.
+  pose proof (pos_in_bytes (bm_size (d_mask d)) (mid_to_index d to) R2) as Hp.
+  rewrite <- (wf_len d Hwf) in Hp.
+  assert (Hd1 : 0 <= mid_to_index d from / 8) by (apply Z.div_pos; lia).
+  assert (Hd2 : mid_to_index d from / 8 <= mid_to_index d to / 8) by (apply Z.div_le_mono; lia).
+  unfold zdist. cbn [go_MIDsDistribution_bitmask].
+  rewrite gen_HasBitsIn_refines; try lia. reflexivity.
+Qed.
+
+(* the occupancy-map half of thm:C14_intersect_sound (C14_occupancy_sound) restated over the GENERATED
+   IsIntersecting: a distribution built by the model's Add never hides an added MID *)
+Lemma intersect_sound_gen : forall d0 ms m qf qt fuel,
+  dist_wf d0 -> 1 < d_bucket d0 -> In m ms -> 0 <= qf -> qf <= m -> m <= qt -> qt < two64 ->
+  (length (bm_bin (d_mask (fold_left dist_add ms d0))) < fuel)%nat ->
+  go_seq_MIDsDistribution_IsIntersecting fuel (zdist (fold_left dist_add ms d0)) qf qt = Val true.
+Proof.
+  intros d0 ms m qf qt fuel Hwf Hb Hin H0 H1 H2 H3 Hfuel.
+  destruct (fold_add_wf ms d0 Hwf) as [W [S _]].
+  rewrite gen_IsIntersecting_refines; try assumption; try lia.
+  - f_equal. eapply dist_intersect_sound; eassumption.
+  - destruct S as [S1 S2]. lia.
+Qed.
